@@ -391,6 +391,11 @@ TIES = {
     'RangeLoops': dict(props=['C11'], gen=['IncludesElements', 'IncludesRange', 'IsPermutationElements', 'IsPermutationRange'],
                        theorems=['includes_elements_eq', 'includes_range_eq', 'is_permutation_elements_eq', 'is_permutation_range_eq'],
                        cxx='the first-fit loops of range_includes / range_is_permutation (matcher/range.hpp)'),
+    'SetPredicate': dict(props=['C10'], gen=['AnyOfCheck', 'AllOfCheck', 'NoneOfCheck'], theorems=['any_of_eq', 'all_of_eq', 'none_of_eq'],
+                         cxx='any_of / all_of / none_of checkers (matcher/set_predicate.hpp)'),
+    'Matchers': dict(props=['C10'], gen=['NotMatches', 'DerefMatches', 'RegexCheck', 'StringHelperBool'],
+                     theorems=['not_matches_tie', 'deref_matches_tie', 'regex_check_tie'],
+                     cxx='not_matcher::matches, ptr_deref::matches, regex_check (matcher/not.hpp, deref.hpp, re.hpp)'),
     'HandleIsOptional': dict(props=['C05'], theorems=['is_optional_tie'], cxx='sequence_matcher::is_optional (sequence.hpp)'),
 }
 
